@@ -66,6 +66,29 @@ func isBlank(e ast.Expr) bool {
 	return ok && id.Name == "_"
 }
 
+// rootIdent strips selectors, indexing, dereferences and parentheses from an
+// assignable expression and returns the identifier it is rooted in.
+func rootIdent(e ast.Expr) *ast.Ident {
+	for {
+		switch x := e.(type) {
+		case *ast.Ident:
+			return x
+		case *ast.SelectorExpr:
+			e = x.X
+		case *ast.IndexExpr:
+			e = x.X
+		case *ast.StarExpr:
+			e = x.X
+		case *ast.ParenExpr:
+			e = x.X
+		case *ast.SliceExpr:
+			e = x.X
+		default:
+			return nil
+		}
+	}
+}
+
 func isMutex(t types.Type) bool {
 	if p, ok := t.(*types.Pointer); ok {
 		t = p.Elem()
@@ -140,7 +163,7 @@ func main() {
 	}
 
 	var siteTable, uncontrolled, skippedTouch []string
-	nRange, nTouch, nY, nLock, nRead := 0, 0, 0, 0, 0
+	nRange, nTouch, nY, nLock, nRead, nGW := 0, 0, 0, 0, 0, 0
 	siteID := 0
 	rel := func(fn string) string { return strings.TrimPrefix(fn, dir+"/") }
 
@@ -300,7 +323,59 @@ func main() {
 					}
 					edits = append(edits, edit{pos: off(n.For), end: off(n.Body.Lbrace) + 1, text: hdr})
 					edits = append(edits, edit{pos: off(n.End()), end: off(n.End()), text: " }", prio: 1})
+				case *ast.ExprStmt:
+					if call, ok := n.X.(*ast.CallExpr); ok && len(call.Args) == 2 && len(funcStack) > 0 && funcStack[0] != "init" {
+						if fid, ok := call.Fun.(*ast.Ident); ok && fid.Name == "delete" {
+							if _, isBuiltin := p.TypesInfo.ObjectOf(fid).(*types.Builtin); isBuiltin {
+								if id := rootIdent(call.Args[0]); id != nil {
+									if v, ok := p.TypesInfo.ObjectOf(id).(*types.Var); ok && v.Parent() == p.Types.Scope() {
+										switch parent.(type) {
+										case *ast.BlockStmt, *ast.CaseClause, *ast.CommClause:
+											siteID++
+											nGW++
+											siteTable = append(siteTable, fmt.Sprintf("%d\tgwrite\t%s\t%s\t%d\t%s", siteID, rel(fn), curFunc(), tf.Line(n.Pos()), id.Name))
+											edits = append(edits, edit{pos: off(n.End()), end: off(n.End()), text: fmt.Sprintf("; simrt.W(%d)", siteID), prio: 2})
+										}
+									}
+								}
+							}
+						}
+					}
+				case *ast.IncDecStmt:
+					if id := rootIdent(n.X); id != nil && len(funcStack) > 0 && funcStack[0] != "init" {
+						if v, ok := p.TypesInfo.ObjectOf(id).(*types.Var); ok && v.Parent() == p.Types.Scope() {
+							switch parent.(type) {
+							case *ast.BlockStmt, *ast.CaseClause, *ast.CommClause:
+								siteID++
+								nGW++
+								siteTable = append(siteTable, fmt.Sprintf("%d\tgwrite\t%s\t%s\t%d\t%s", siteID, rel(fn), curFunc(), tf.Line(n.Pos()), id.Name))
+								edits = append(edits, edit{pos: off(n.End()), end: off(n.End()), text: fmt.Sprintf("; simrt.W(%d)", siteID), prio: 2})
+							}
+						}
+					}
 				case *ast.AssignStmt:
+					// writes to package-level state (directly, through a field, an element or a
+					// dereference): candidate interference points between concurrent renders
+					if len(funcStack) > 0 && funcStack[0] != "init" && n.Tok != token.DEFINE {
+						for _, lhs := range n.Lhs {
+							id := rootIdent(lhs)
+							if id == nil || id.Name == "_" {
+								continue
+							}
+							v, ok := p.TypesInfo.ObjectOf(id).(*types.Var)
+							if !ok || v.Parent() != p.Types.Scope() {
+								continue
+							}
+							switch parent.(type) {
+							case *ast.BlockStmt, *ast.CaseClause, *ast.CommClause:
+								siteID++
+								nGW++
+								siteTable = append(siteTable, fmt.Sprintf("%d\tgwrite\t%s\t%s\t%d\t%s", siteID, rel(fn), curFunc(), tf.Line(n.Pos()), id.Name))
+								edits = append(edits, edit{pos: off(n.End()), end: off(n.End()), text: fmt.Sprintf("; simrt.W(%d)", siteID), prio: 2})
+							}
+							break
+						}
+					}
 					for _, lhs := range n.Lhs {
 						ix, isIx := lhs.(*ast.IndexExpr)
 						if !isIx {
@@ -364,8 +439,8 @@ func main() {
 		rk = append(rk, k)
 	}
 	sort.Strings(rk)
-	fmt.Fprintf(os.Stderr, "rewriter: ranges=%d touches=%d (skipped %d) yields=%d locks=%d readfile=%d uncontrolled=%d pointer-keyed ranged map types=%d\n",
-		nRange, nTouch, len(skippedTouch), nY, nLock, nRead, len(uncontrolled), len(rk))
+	fmt.Fprintf(os.Stderr, "rewriter: ranges=%d touches=%d (skipped %d) yields=%d locks=%d readfile=%d globalwrites=%d uncontrolled=%d pointer-keyed ranged map types=%d\n",
+		nRange, nTouch, len(skippedTouch), nY, nLock, nRead, nGW, len(uncontrolled), len(rk))
 	for _, s := range skippedTouch {
 		fmt.Fprintln(os.Stderr, "rewriter: WARNING touch skipped at", s)
 	}
